@@ -290,9 +290,14 @@ impl<'a> GlyphPatches<'a> {
         table_index: usize,
     ) -> impl Iterator<Item = Result<(GlyphId, &'a [u8]), ReadError>> {
         let glyph_count = self.glyph_count() as usize;
-        let start_index = table_index * glyph_count;
+        // `table_index` is supplied by the caller: an index past the last
+        // table yields nothing rather than overflowing.
+        let start_index = table_index.saturating_mul(glyph_count);
         let start_it = self.glyph_data_offsets().iter().skip(start_index);
-        let end_it = self.glyph_data_offsets().iter().skip(start_index + 1);
+        let end_it = self
+            .glyph_data_offsets()
+            .iter()
+            .skip(start_index.saturating_add(1));
         let glyphs = self.glyph_ids().iter().take(glyph_count);
 
         let it = glyphs.zip(start_it.zip(end_it)).map(|(gid, (start, end))| {
